@@ -18,6 +18,7 @@ TRUSTED = ["Coq 8.16.1 kernel + vm_compute (PrimFloat only in the correspondence
            "hand-written model coq/Model/Periodogram.v (+ Model/Corr.v), tied to periodogram.py / correlog.py / psd.py by the correspondence run only",
            "numpy.fft.fft/rfft modelled as the DFT sum over a twiddle character (Theory/Dft.v), scipy.signal.correlate as the lag sums: specifications, not verified",
            "window samples are inputs of the model (Window(N,name).data of the snapshot); their own correctness is C20",
+           "tools/props/_c01_pipeline.py: fail-closed ast extraction of the __call__/psd-setter pipeline record and statement-by-statement comparison of psd getter, scale, df, window setter with the modelled snippets",
            "Python harness (snapshot, generators, float literal writer, cmath DFT oracle)"]
 UNPROVED = ["every clause of the statement is proved about the model; not covered by any theorem: rounding error of the binary64 code",
             "the overlapping layout NFFT < 2*lag+1 and the error branches of CORRELOGRAMPSD are modelled and tied by correspondence only",
@@ -722,8 +723,19 @@ def search(ctx):
 
 
 def run(ctx):
-    import traceback
+    import traceback, os
+    import spectrum
+    from props import _c01_pipeline
     ctx.check_theorems('Properties/C01.v')
+    # translator tie: the pipeline record of Periodogram.__call__ / the psd property is re-extracted from the snapshot
+    try:
+        vtext = _c01_pipeline.generated_v(os.path.dirname(os.path.abspath(spectrum.__file__)))
+    except _c01_pipeline.Unrecognised as e:
+        ctx.obligations.append(('call_pipeline_is_modelled', False, []))
+        ctx.broken.append({'theorem': 'translator:Periodogram.__call__ pipeline (source shape outside the modelled one)',
+                           'where': 'periodogram.py / psd.py', 'log': str(e)[:2000]})
+    else:
+        ctx.check_generated('c01_pipeline', vtext, ['call_pipeline_is_modelled'])
     pre = pre_float()
     for nm, gen, pr, descr in (
             ('c01_speriodogram', corr_speriodogram, pre, 'speriodogram (1-D) vs Model.Periodogram.speriodogram at binary64 pairs, twiddle table from the harness'),
